@@ -6,8 +6,28 @@ ELEM_ALPHA = ["push", "insert", "pop", "remove", "swap_remove", "typed", "clear"
 def m_elem(tier):
     return dict(alpha=ELEM_ALPHA, MaxLen=3 if tier == "quick" else 4, MaxExt=1, MaxDepth=40)
 
+ALL_FORMS = ["x..y", "x..=y", "..y", "..=y", "x..", "..", "x<..y", "x<..=y", "x<.."]
+def m_range(tier):
+    # drain / splice on vector a (b is a sink/source partner), every RangeBounds form, every (s,e) incl. invalid ones,
+    # every front/back consumption, every per-item sink incl. keep (item outlives the iterator) and forget
+    return dict(alpha=["push", "drain", "splice", "keep", "forget", "ext_drop"], MaxLen=3 if tier == "quick" else 4, MaxLenB=1,
+                MaxExt=1, MaxOut=1, MaxRepl=2 if tier == "quick" else 3, OneHandle=True, forms=ALL_FORMS,
+                srcs=["typed", "wrapper", "raw"], timeout=6000)
+def m_iter(tier):
+    return dict(alpha=["push", "iter", "mutate"], MaxLen=3 if tier == "quick" else 5, MaxLenB=0, MaxIters=2 if tier == "quick" else 3,
+                srcs=["typed"], OneHandle=True)
+
+def m_xchg(tier):
+    # three vectors exchanging elements through removal handles and drained items
+    return dict(vecs=["a", "b", "c"], alpha=["push", "pop", "remove", "swap_remove", "clear", "drain", "ext_drop", "forget"],
+                MaxLen=2, MaxLenB=2 if tier != "quick" else 1, MaxExt=1, MaxOut=0, MaxRepl=0, OneHandle=True, forms=["x..y"],
+                srcs=["wrapper"], timeout=6000)
+
 MODELS = {
+    "xchg": m_xchg,
     "elem": m_elem,
+    "range": m_range,
+    "iter": m_iter,
 }
 
 R, D = "release", "dev"
@@ -19,7 +39,65 @@ def c01(tier):
         return [dict(model="elem", configs=cfgs(["heap8d", "heap3n"], (R,)) + cfgs(["heap160"], (D,)))]
     return [dict(model="elem", configs=cfgs(["heap8d", "heap3n", "heap160", "heap0d"], (R, D)))]
 
+def c02(tier):
+    if tier == "quick":
+        return [dict(model="range", configs=cfgs(["heap8d"], (R, D)) + cfgs(["heap3n"], (R,)))]
+    return [dict(model="range", configs=cfgs(["heap8d", "heap3n", "heap160", "heap0d"], (R, D)))]
+def c14(tier):
+    if tier == "quick":
+        return [dict(model="iter", configs=cfgs(["heap8d"], (R,))), dict(model="range", configs=cfgs(["heap8d"], (R,)))]
+    return [dict(model="iter", configs=cfgs(["heap8d", "heap3n", "heap0d"], (R, D))), dict(model="range", configs=cfgs(["heap8d", "heap160"], (R, D)))]
+
+def c03(tier):
+    if tier == "quick":
+        return [dict(model="elem", configs=cfgs(["heap8d"], (R,))), dict(model="range", configs=cfgs(["heap8d"], (R,))),
+                dict(model="xchg", configs=cfgs(["heap8d"], (R,)))]
+    return [dict(model="elem", configs=cfgs(["heap8d", "heap160", "heap0d", "heap3n"], (R, D))),
+            dict(model="range", configs=cfgs(["heap8d", "heap160", "heap0d"], (R, D))),
+            dict(model="xchg", configs=cfgs(["heap8d", "heap160", "heap0d"], (R, D)))]
+def c07(tier):
+    if tier == "quick":
+        return [dict(model="elem", configs=cfgs(["heap8d"], (R,))), dict(model="range", configs=cfgs(["heap8d"], (R,)))]
+    return [dict(model="elem", configs=cfgs(["heap8d", "heap160", "heap3n"], (R, D))), dict(model="range", configs=cfgs(["heap8d", "heap160", "heap3n"], (R, D)))]
+def c13(tier):
+    if tier == "quick":
+        return [dict(model="elem", configs=cfgs(["heap8d", "heap3n"], (R,))), dict(model="iter", configs=cfgs(["heap8d", "heap3n"], (R,)))]
+    return [dict(model="elem", configs=cfgs(["heap8d", "heap3n", "heap160", "heap0d"], (R, D))), dict(model="iter", configs=cfgs(["heap8d", "heap3n", "heap160"], (R, D)))]
+
 PLAN = {
+    "C03": dict(campaigns=c03, level="model_checking",
+                claim="Ownership accounting (identity registry in the element type's own Drop/Clone) is judged by TLC on every event of the "
+                      "element-wise, range and three-vector exchange models: every identity in exactly one place, every destruction of a live "
+                      "identity exactly once, the step's drop callbacks equal to the contract's, and after a teardown of everything only "
+                      "identities the contract counts as leaked stay alive. Zero-sized and no-drop layouts are judged by count/value.",
+                rule="cases = all transitions of the elem, range and xchg models; every event is followed by a teardown of all vectors, "
+                     "handles and extracted values; non-trivial = any operation instance at depth >= 2; distinct = (action, config, profile)"),
+    "C07": dict(campaigns=c07, level="model_checking",
+                claim="Every forget transition of the bounded models (removal handle forgotten; drain/splice iterator forgotten after every "
+                      "front/back consumption state; a yielded item forgotten) is replayed and judged against the leak rule of the contract "
+                      "(prefix unchanged, tail a duplicate-free subset of the former tail, nothing handed-out or destroyed visible), then "
+                      "every further single operation of the alphabet and a full teardown are judged from the adopted state.",
+                rule="cases = all transitions of the elem and range models; non-trivial = a forgetting step (handle, iterator or item) at depth >= 2 "
+                     "- the follow-up operations after a forget are the ordinary transitions of the models from the post-forget states"),
+    "C13": dict(campaigns=c13, level="model_checking",
+                claim="Every accessor (get/at/get_mut/at_mut, typed and erased, indices 0..=len+1), every mutation path (ElementMut, byte view, "
+                      "typed reference, typed slice, iter_mut, removal handle) and every iterator item is replayed; TLC judges the returned "
+                      "element, its reported type/size, and that after every step the typed slice, the byte view and the erased iterator "
+                      "decode to the same sequence which equals the contract state.",
+                rule="cases = all transitions of the elem and iter models; non-trivial = get/mutate/hmutate/iter_next instance at depth >= 2"),
+    "C02": dict(campaigns=c02, level="model_checking",
+                claim="Every transition of the bounded range model (drain/splice begin in all nine RangeBounds forms over every (start,end) "
+                      "around and at the boundary and at usize::MAX, every front/back consumption step with every per-item sink, iterator "
+                      "dropped or forgotten at every stage, replacement lengths 0..k from every source kind, typed and erased) is replayed on "
+                      "the real crate and judged by TLC against Vec::drain / Vec::splice semantics.",
+                rule="cases = all transitions of the bounded range model; non-trivial = a range operation instance at depth >= 2; "
+                     "distinct = distinct (action, configuration, profile) triples"),
+    "C14": dict(campaigns=c14, level="model_checking",
+                claim="Every next/next_back step (and clone of shared iterators) from every cursor state of iter, iter_mut, typed iterators, "
+                      "drain and splice inside the bound is replayed and its size_hint/len and yielded element judged by TLC; "
+                      "calls after exhaustion are the self-loop transitions of the model.",
+                rule="cases = all transitions of the iterator and range models; non-trivial = an iterator step at depth >= 2; "
+                     "distinct = distinct (action, configuration, profile) triples"),
     "C01": dict(campaigns=c01, level="model_checking",
                 claim="Every transition of the bounded two-vector contract model (element-wise alphabet: every index 0..=len+1, every "
                       "value source and sink kind, typed/erased/mixed paths) is replayed on the real crate on several element layouts "
